@@ -6,6 +6,7 @@ use std::fmt;
 use time::RtmpTimestamp;
 
 /// Represents a raw RTMP message
+#[cfg_attr(feature = "verif", derive(Clone))]
 #[derive(PartialEq)]
 pub struct MessagePayload {
     pub timestamp: RtmpTimestamp,
